@@ -776,6 +776,7 @@ def battery():
     MC = "mpf/core/mode_controller.py"
     G = "mpf/modes/game/code/game.py"
     return [
+        M("stop callbacks removed from the list while it is walked", "mpf/core/mode.py", "        for callback in self.stop_callbacks:\n            callback()\n\n        self.stop_callbacks = []\n", "        for callback in self.stop_callbacks:\n            self.stop_callbacks.remove(callback)\n            callback()\n", ("ITERMUT-0", "PAIR-2")),
         M("handler list re-sorted only when the raw priority says so", EV, "        if len(self.registered_handlers[event]) > 1:\n            self.registered_handlers[event].sort(key=lambda x: x.priority, reverse=True)", "        if len(self.registered_handlers[event]) > 1 and self.registered_handlers[event][-2].priority < priority:\n            self.registered_handlers[event].sort(key=lambda x: x.priority, reverse=True)", "SORT-1"),
         M("queue runner returns without completion when the handlers vanished", EV, "        if event not in self.registered_handlers:\n            if callback:\n                callback(**kwargs)\n            return\n\n        # Now let's call the handlers one-by-one, including any kwargs\n        for handler in self.registered_handlers[event][:]:\n            # use slice above so we don't process new handlers that came\n            # in while we were processing previous handlers\n\n            # merge the post's kwargs with the registered handler's kwargs\n            # in case of conflict, handlers kwargs will win\n            merged_kwargs = dict(list(kwargs.items()) + list(handler.kwargs.items()))", "        if event not in self.registered_handlers:\n            return\n\n        # Now let's call the handlers one-by-one, including any kwargs\n        for handler in self.registered_handlers[event][:]:\n            # use slice above so we don't process new handlers that came\n            # in while we were processing previous handlers\n\n            # merge the post's kwargs with the registered handler's kwargs\n            # in case of conflict, handlers kwargs will win\n            merged_kwargs = dict(list(kwargs.items()) + list(handler.kwargs.items()))", "DOM-4"),
         M("twin: queue runner walks an empty list when the handlers vanished", EV, "        if event not in self.registered_handlers:\n            if callback:\n                callback(**kwargs)\n            return\n\n        # Now let's call the handlers one-by-one, including any kwargs\n        for handler in self.registered_handlers[event][:]:\n            # use slice above so we don't process new handlers that came\n            # in while we were processing previous handlers\n\n            # merge the post's kwargs with the registered handler's kwargs\n            # in case of conflict, handlers kwargs will win\n            merged_kwargs = dict(list(kwargs.items()) + list(handler.kwargs.items()))", "        for handler in self.registered_handlers.get(event, [])[:]:\n            merged_kwargs = dict(list(kwargs.items()) + list(handler.kwargs.items()))", None),
